@@ -26,6 +26,7 @@ NOTE = ["Jinja2 and PyYAML are not modelled: they enter through the rendered and
         "digest of a child by path relies on C03 (children are generated outside the F4 region)"]
 
 PLAIN_NAMES = [("nordicsemi.com", "nRF54H20_sample_root"), ("acme.example", "my_class-1"), ("Vendor Name", "class.with.dots")]
+NONASCII_NAMES = [("müller-geräte.example", "Ölpumpe_rad"), ("bücher.example", "Wärmepumpe_app"), ("中文.example", "クラス")]
 YAML_NAMES = [("123", "true"), ("null", "~"), ("a: b", "x #y"), ("0x10", "[a]"), (" lead", "trail "), ("", "1_000"), ("2024-01-01", "é中"), ('q"uote', "back\\slash")]
 
 
@@ -163,7 +164,22 @@ def case_root(drv, seed, index, subset, names, varmode, res):
                        "SB_CONFIG_SUIT_MPI_APP_LOCAL_1_VENDOR_NAME": av, "SB_CONFIG_SUIT_MPI_APP_LOCAL_1_CLASS_NAME": ac,
                        "SB_CONFIG_SUIT_MPI_RAD_LOCAL_1_VENDOR_NAME": dv, "SB_CONFIG_SUIT_MPI_RAD_LOCAL_1_CLASS_NAME": dc}
             # a partially customised configuration: only the keys selected by _MASK are present, every other name keeps its own default
-            cfg["sysbuild"]["config"].update({k: v for (k, v), keep in zip(allkeys.items(), _MASK) if keep})
+            chosen = {k: v for (k, v), keep in zip(allkeys.items(), _MASK) if keep}
+            cfg["sysbuild"]["config"].update(chosen)
+            if all(ch not in v for v in chosen.values() for ch in '"\\\n') and all(v == v.strip() for v in chosen.values()):
+                # as in a real build: the names reach the template from the sysbuild .config file through ncs/build.py (values that a .config line
+                # cannot carry verbatim - quotes, backslashes, outer blanks - stay on the direct path)
+                kpath = os.path.join(d, "sysbuild.config")
+                with open(kpath, "w", encoding="utf-8") as fh:
+                    fh.write("# generated\nSB_CONFIG_BOARD=\"nrf54h20dk\"\nSB_CONFIG_SUIT_ENVELOPE=y\nSB_CONFIG_SUIT_ENVELOPE_SEQUENCE_NUM=1\n")
+                    for k, v in chosen.items():
+                        fh.write(f'{k}="{v}"\n')
+                try:
+                    data = ncs_build.read_configurations([f"sysbuild,,,{kpath}"], "")
+                except BaseException as e:  # noqa
+                    return {"problems": [f"reading the sysbuild configuration failed: {type(e).__name__}"], "mismatch": None, "hash": f"{index}"}
+                cfg["sysbuild"] = data["sysbuild"]
+                res.count("names:through-dot-config-file")
         images = {}
         for key, (v, c) in (("radio", (dv, dc)), ("application", (av, ac)), ("top", ("nordicsemi.com", "nRF54H20_nordic_top"))):
             if key in subset:
@@ -307,6 +323,9 @@ def run(tier: str, seed: int) -> int:
                 name_sets = [(None, "plain"), ((PLAIN_NAMES[1], PLAIN_NAMES[2], PLAIN_NAMES[1]), "plain")]
                 yn = rng.sample(YAML_NAMES, 3)
                 name_sets.append(((yn[0], yn[1], yn[2]), "yaml-significant"))
+                if (index // 3) % 3 == 0 or tier != "quick":
+                    na = rng.sample(NONASCII_NAMES, 3)
+                    name_sets.append(((na[0], na[1], na[2]), "non-ascii"))
                 for names, nkind in name_sets:
                     index += 1
                     nm = names if names is not None else (PLAIN_NAMES[0], ("nordicsemi.com", "nRF54H20_sample_app"), ("nordicsemi.com", "nRF54H20_sample_rad"))
